@@ -127,7 +127,9 @@ fn gen(prop: &str, rng: &mut Rng, n: u64, tier: &str) -> Vec<T> {
         let flags = if prop == "C05" {
             world::F_RELAYER | if k % 5 == 4 { world::F_TINYGAS } else { 0 }
         } else {
-            match k % 9 {
+            match k % 10 {
+            // utxo validation off (fake coins): only the processed-ids property is stated for it
+            9 => if prop == "C06" { world::F_NOFORBID } else { 0 },
             8 => world::F_EXACTGAS,
             0 | 1 | 2 => 0,
             3 => world::F_TINYGAS,
